@@ -1,4 +1,4 @@
-import GixModel.Lemmas.C25
+import GixModel.Lemmas.C25File
 /-
 C25 — Index files written by gitoxide round-trip and are valid for git.  PROPERTY THEOREMS ONLY.
 
@@ -83,13 +83,25 @@ theorem write_file_eq_git (sha1 : Bytes → Bytes) (s : State) (o : Options)
     (writeFile sha1 s o).2 =
       gitEncodeIndex sha1 (requiredVersion s.entries) [(kept s.entries).map persisted] false
         (gitExtensionsOf s o) (wantsEoie s o)
-        (if o.skipHash then List.replicate hashLen 0 else sha1 (writeState sha1 s o).2) := by
-  have h := writeState_eq_git sha1 s o hid
-  unfold writeFile
-  simp only []
-  rw [h]
-  unfold gitEncodeIndex
-  simp only [List.append_nil, List.append_assoc]
+        (if o.skipHash then List.replicate hashLen 0 else sha1 (writeState sha1 s o).2) :=
+  write_file_eq_git_aux sha1 s o hid
+
+/-- THE FILE read back: `State::from_bytes` (C24's model, any thread limit) on what `File::write_to`
+produced returns the version written, exactly the persisted kept entries (every path length), the
+sparse flag, the markers, the cache tree as its payload decoder sees it, and the checksum — for any
+hash function with 20-byte output, any state whose kept entries are encodable (`EntryOk`), any
+`write::Options`. If no end-of-index entry is written the trailing bytes must not look like one. -/
+theorem write_read_file (sha1 : Bytes → Bytes) (hsha : ∀ x, (sha1 x).length = 20) (s : State) (o : Options)
+    (threads : Nat) (ht : 1 ≤ threads)
+    (hok : ∀ e ∈ kept s.entries, EntryOk e) (hfit : PathsFit (kept s.entries))
+    (hsize : (writeFile sha1 s o).2.length < 4294967296)
+    (hno : wantsEoie s o = false → eoieDecode sha1 (writeFile sha1 s o).2 = none) :
+    fromBytes sha1 threads (writeFile sha1 s o).2 =
+      .ok (requiredVersion s.entries) ((kept s.entries).map persisted)
+        (isSparseEntries ((kept s.entries).map persisted) || s.isSparse)
+        (expectedExts (writtenTree s o) none s.isSparse false (wantsEoie s o))
+        (if isNull (trailerOf sha1 s o) then none else some (trailerOf sha1 s o)) :=
+  writeFile_readback sha1 hsha s o threads ht hok hfit hsize hno
 
 /-- a well-formed entry with a path of `n` bytes -/
 def sample (n : Nat) (flags : Nat) : Entry :=
@@ -125,23 +137,5 @@ example : chunk false 2 (writeEntriesGo 12 12 [sample 4095 0, sample 3 131072, s
         rcases he with rfl | rfl <;> exact sample_ok _ _) [1, 2]
   rw [sample_kept] at h
   exact h
-
-/-- FULL statement at the file level (a definition; what is proved of it: the written file IS git's
-encoding — `write_file_eq_git` —, and its entries region decodes back to the persisted kept entries
-for every path length — `write_read_roundtrip`; the remaining step, `from_bytes` on the whole file
-including header, TREE/sdir/EOIE extensions and trailer for every thread limit, is C24's
-`C24_full` and is tied by the correspondence run and the read-back oracle): -/
-def C25_full : Prop :=
-  ∀ (sha1 : Bytes → Bytes) (s : State) (o : Options) (threads : Nat), 1 ≤ threads →
-    (∀ e ∈ kept s.entries, EntryOk e) →
-    (o.endOfIndexEntry = false → eoieDecode sha1 (writeFile sha1 s o).2 = none) →
-    (writeFile sha1 s o).2.length < 4294967296 →
-    ∃ x : Exts,
-      fromBytes sha1 threads (writeFile sha1 s o).2 =
-        .ok (requiredVersion s.entries) ((kept s.entries).map persisted)
-          (isSparseEntries ((kept s.entries).map persisted) || s.isSparse) x
-          (if o.skipHash then none else
-            (if isNull (sha1 (writeState sha1 s o).2) then none else some (sha1 (writeState sha1 s o).2))) ∧
-      x.isSparse = s.isSparse ∧ x.link = none ∧ x.reuc = none ∧ x.untracked = none
 
 end GixModel.Props.C25
